@@ -1273,7 +1273,52 @@ def c03_21(ctx):
     return out
 
 
+def c03_22(ctx):
+    """curve membership does not depend on how the coordinates are spelled: S256Point.__init__ evaluated for on-curve and off-curve pairs given
+    as plain integers, as S256Field elements and as FieldElement(·, P) elements -- every off-curve pair is refused (ValueError) and every
+    on-curve pair (and the point at infinity) is accepted, with x, y and the parity stored"""
+    from sa.cells import Evaluator, Obj, Raised, Undecided
+    spec = "pecc:S256Point.__init__"
+    mod, fn = rl.get(ctx, spec)
+    P_ = SECP256K1["P"]
+    GX, GY = SECP256K1["GX"], SECP256K1["GY"]
+    pairs = [("G", GX, GY, True), ("-G", GX, P_ - GY, True), ("(Gx, Gy+1)", GX, (GY + 1) % P_, False), ("(1, 1)", 1, 1, False), ("(Gx+1, Gy)", (GX + 1) % P_, GY, False), ("(0, 0)", 0, 0, False)]
+    spell = {"int": lambda v: v, "S256Field": lambda v: Obj("pecc", "S256Field", {"num": v, "prime": P_}), "FieldElement": lambda v: Obj("pecc", "FieldElement", {"num": v, "prime": P_})}
+    n = 0
+    try:
+        for label, x, y, on in pairs:
+            for sp, mk in spell.items():
+                n += 1
+                me = Obj("pecc", "S256Point", {})
+                try:
+                    Evaluator(ctx.repo, max_steps=1000000).call(spec, [mk(x), mk(y)], self_obj=me)
+                    accepted = True
+                except Raised as e:
+                    accepted = False
+                    if on or e.name != "ValueError":
+                        return [ctx.bad(spec, "the pair %s given as %s raises %s" % (label, sp, e.name), fn, mod, key="membership-spelling")]
+                if accepted and not on:
+                    return [ctx.bad(spec, "the pair %s, which does not satisfy y^2 = x^3 + 7, is accepted when its coordinates are given as %s: a point that is not on the curve "
+                                          "enters the group law" % (label, sp), fn, mod, key="membership-spelling")]
+                if accepted:
+                    gx = me.attrs.get("x")
+                    gy = me.attrs.get("y")
+                    if not (isinstance(gx, Obj) and gx.attrs.get("num") == x and isinstance(gy, Obj) and gy.attrs.get("num") == y and me.attrs.get("parity") == y % 2):
+                        return [ctx.bad(spec, "the point %s given as %s is stored with other coordinates or parity" % (label, sp), fn, mod, key="membership-spelling")]
+        n += 1
+        me = Obj("pecc", "S256Point", {})
+        Evaluator(ctx.repo).call(spec, [None, None], self_obj=me)
+    except Raised as e:
+        return [ctx.bad(spec, "the point at infinity (None, None) raises %s" % e.name, fn, mod, key="membership-spelling")]
+    except Undecided as u:
+        return [ctx.err(spec, "constructor not evaluable: %s" % u, fn, mod)]
+    ctx.count("cells", n)
+    return [ctx.ok(spec, "%d (pair, spelling) cells: off-curve pairs are refused and on-curve pairs stored, whatever type the coordinates have" % n, fn, mod, key="membership-spelling")]
+
+
+
 OBLIGATIONS = [
+    ("C03.22", "CELLS membership by spelling", c03_22),
     ("C03.20", "CELLS small fields (bounded)", c03_20),
     ("C03.21", "CELLS identity operands", c03_21),
     ("C03.19", "RANGE accept-set (shared C01.6)", c03_19),
